@@ -418,3 +418,37 @@ where
     st.exhaustive_parts.push(format!("context pairs: {} context leaves (the palette and one formatted print per supported directive) x {} subject leaves x 5 arrangements, {}", contexts.len(), subjects.len(), if denom <= 1 { "all of them".to_string() } else { format!("the seed-selected 1/{denom} slice") }));
     st
 }
+
+/// Patterns that differ only by backslashes or by one level of string escaping (`a\*` / `a*`,
+/// `a\b` / `a\\b`, `a"b` / `a\"b`): a registry that is filled under one form and looked up under
+/// the other takes two different requests for one. Structural checks only (what a backslash means
+/// to the runtime's matcher is not modelled behaviourally).
+pub fn escape_twin_trees() -> Vec<E> {
+    let mut out = vec![];
+    let esc = |p: &str| p.replace('\\', "\\\\").replace('"', "\\\"");
+    let framers = [None, Some(Act::Print0), Some(Act::FPrint(s("twin.out"))), Some(Act::Printf(vec![FEl::F(Fld::NameNoStart)]))];
+    for p in ["a\\*", "a\\?b", "\\[ab]", "x\\\\y*", "a\"b*", "a\\b", "say \"hi\"", "\\", "\"", "a\\\"b", "dir\\*\\"] {
+        let variants = [p.replace('\\', ""), esc(p), esc(&esc(p)), format!("{p}\\"), p.replace('"', "")];
+        for v in variants {
+            if v == p || v.is_empty() {
+                continue;
+            }
+            for (k, f) in framers.iter().enumerate() {
+                for (a, b) in [(E::T(Tst::Name(s(p))), E::T(Tst::Name(v.clone()))), (E::T(Tst::IName(v.clone())), E::T(Tst::IName(s(p)))), (E::T(Tst::Path(s(p))), E::T(Tst::Path(v.clone()))), (E::T(Tst::Pool(s(p))), E::T(Tst::Pool(v.clone()))), (E::T(Tst::XattrMatch(s("user.a"), s(p))), E::T(Tst::XattrMatch(s("user.a"), v.clone())))] {
+                    let t = if k % 2 == 0 { E::or(a, b) } else { E::or(b, a) };
+                    out.push(match f {
+                        None => t,
+                        Some(act) => E::and(t, E::A(act.clone())),
+                    });
+                }
+                // as file names
+                let t = E::and(E::A(Act::FPrint(s(p))), E::A(Act::FPrint(v.clone())));
+                out.push(match f {
+                    None => t,
+                    Some(act) => E::list(t, E::A(act.clone())),
+                });
+            }
+        }
+    }
+    out
+}
